@@ -1,6 +1,7 @@
 package checks
 
 import (
+	"strings"
 	"context"
 	"errors"
 	"fmt"
@@ -52,7 +53,7 @@ func runC08(c *core.Ctx) {
 	n2 := bt.Range(2, 10, "n2")
 	writes := bt.Bias(1, 2, "writes")
 
-	kind := c.T.Choose(7, "closekind")
+	kind := c.T.Choose(8, "closekind")
 	blockWrites := c.T.Bias(1, 3, "blockwrites")
 	closeErr := c.T.Bias(1, 4, "closeerr")
 	// the application's state handler: 1 = slow (states queue up behind it), 2 = reacts to Closed by calling the
@@ -330,15 +331,22 @@ func runC08(c *core.Ctx) {
 		openAtReturn []string // sockets of the agent still open at the instant this closer returned
 		// readersAtReturn: sockets of the agent inside whose read call a goroutine still sat at that instant
 		readersAtReturn []string
+		// busyAtReturn: application callbacks still executing when a GracefulClose returned
+		busyAtReturn int
+		graceful     bool
 	}
 	var closers []*closer
 	t0 := c.Now()
 	run := func(name string, f func() error) {
 		cl := &closer{name: name}
 		closers = append(closers, cl)
+		cl.graceful = strings.Contains(name, "GracefulClose")
 		go func() {
 			_ = f()
 			cl.returned = c.Now()
+			if cl.graceful {
+				cl.busyAtReturn = A.Busy()
+			}
 			// "when Close has returned": evaluated at the instant of return, for every caller
 			for _, so := range aSocks() {
 				if !so.Closed() && !(staysOpen && so.CloseCalls > 0) {
@@ -400,6 +408,9 @@ func runC08(c *core.Ctx) {
 	case 6:
 		run("Close#1", A.A.Close)
 		run("Close#2", A.A.Close)
+	case 7:
+		// a plain Close first, GracefulClose right behind it: the second call still waits for the callbacks
+		run("Close+GracefulClose", func() error { _ = A.A.Close(); return A.A.GracefulClose() })
 	}
 	allDone := func() bool {
 		for _, cl := range closers {
@@ -472,6 +483,10 @@ func runC08(c *core.Ctx) {
 		return
 	}
 	for _, cl := range closers {
+		if cl.graceful && cl.busyAtReturn > 0 {
+			c.Failf("C08/gracefulclose-returned-while-callback-running", "%s returned while %d application callback(s) of the agent were still executing (state handler mode %d, cut %d/%d)", cl.name, cl.busyAtReturn, hmode, pos, len(ops))
+			return
+		}
 		if len(cl.readersAtReturn) > 0 {
 			c.Failf("C08/goroutine-in-read-after-close", "%s returned while a goroutine of the agent was still inside a read of %v (its receive loop was not joined; teardown at position %d of %d, kind %d)",
 				cl.name, cl.readersAtReturn, pos, len(ops), kind)
